@@ -9,7 +9,7 @@ import (
 
 func init() {
 	register(&Property{ID: "C19", Run: runC19,
-		Explain: "Trace faithfulness decided as tables, sibling agreement and pairing: (R19.1) every pubsubTracer method that builds a TraceEvent sets Type to the enum constant matching its own name and sets exactly the payload field of the same name (table derived from the source on every run), stamps the local peer ID, reaches tracer.Trace on every path with a tracer attached, fills Join/Leave/Graft/Prune/stream payloads from its own parameters, and forwards to the same-named method of every raw tracer (loops without early exit); (R19.2) every implementation of PubSubRouter in the module traces Join as Join and Leave as Leave (never the opposite), and outbound-stream events under their own names; gossipsub traces JOIN only on the not-yet-joined edge and LEAVE only on the joined edge, and (shared R05.1/R05.2) the routers' Join/Leave are called exactly when the first local interest appears / the last one goes away (alternation); (R19.3) every mesh insert is paired with tracer.Graft and every mesh delete with tracer.Prune for the same peer and topic, the one exception being OnClosedOutboundStream, which is paired with the closed-stream event; (R19.4) at every rpcQueue push the error edge reaches DropRPC (and never SendRPC) and the success edge reaches SendRPC (and never DropRPC), with the pushed RPC as operand; (R19.5) DELIVER_MESSAGE is emitted only by publishMessage(+Batch), once per message on every path, and PUBLISH_MESSAGE only and always by ValidateLocal; (R19.6) the file/remote tracer buffer and closed flag are accessed under their mutex. NOT decided: lossy remote tracer, file encodings, ordering between events of different goroutines.",
+		Explain: "Trace faithfulness decided as tables, sibling agreement and pairing: (R19.1) every pubsubTracer method that builds a TraceEvent sets Type to the enum constant matching its own name and sets exactly the payload field of the same name (table derived from the source on every run), stamps the local peer ID, reaches tracer.Trace on every path with a tracer attached, fills Join/Leave/Graft/Prune/stream payloads from its own parameters, and forwards to the same-named method of every raw tracer (loops without early exit); (R19.2) every implementation of PubSubRouter in the module traces Join as Join and Leave as Leave (never the opposite), and outbound-stream events under their own names; gossipsub traces JOIN only on the not-yet-joined edge and LEAVE only on the joined edge, and (shared R05.1/R05.2) the routers' Join/Leave are called exactly when the first local interest appears / the last one goes away (alternation); (R19.3) every mesh insert is paired with tracer.Graft and every mesh delete with tracer.Prune for the same peer and topic, the one exception being OnClosedOutboundStream, which is paired with the closed-stream event; (R19.4) at every rpcQueue push the error edge reaches DropRPC (and never SendRPC) and the success edge reaches SendRPC (and never DropRPC), with the pushed RPC as operand; (R19.5) DELIVER_MESSAGE is emitted only by publishMessage(+Batch), once per message on every path, and PUBLISH_MESSAGE only and always by ValidateLocal; (R19.6) the file/remote tracer buffer and closed flag are accessed under their mutex. (R19.3 converse) a PRUNE event is emitted only for a peer that was a mesh member. NOT decided: lossy remote tracer, file encodings, ordering between events of different goroutines.",
 		Assume:  []string{"generated enum names follow protoc-gen-gogo conventions (UPPER_SNAKE of the message name)"},
 		Mutants: []Mutant{
 			{Name: "randomsub-leave-traces-join", File: "randomsub.go", Old: "func (rs *RandomSubRouter) Leave(topic string) {\n\trs.tracer.Leave(topic)", New: "func (rs *RandomSubRouter) Leave(topic string) {\n\trs.tracer.Join(topic)", Expect: "R19.2"},
@@ -18,7 +18,8 @@ func init() {
 			{Name: "deliver-raw-break", File: "trace.go", Old: "\t\tfor _, tr := range t.raw {\n\t\t\ttr.DeliverMessage(msg)\n\t\t}", New: "\t\tfor _, tr := range t.raw {\n\t\t\ttr.DeliverMessage(msg)\n\t\t\tbreak\n\t\t}", Expect: "R19.1"},
 			{Name: "send-event-not-traced-when-raw", File: "trace.go", Old: "\tfor _, tr := range t.raw {\n\t\ttr.SendRPC(rpc, p)\n\t}\n\n\tif t.tracer == nil {\n\t\treturn\n\t}", New: "\tfor _, tr := range t.raw {\n\t\ttr.SendRPC(rpc, p)\n\t}\n\n\tif t.tracer == nil || len(t.raw) > 3 {\n\t\treturn\n\t}", Expect: "R19.1"},
 			{Name: "gossipsub-join-traced-before-check", File: "gossipsub.go", Old: "\tgmap, ok := gs.mesh[topic]\n\tif ok {\n\t\treturn\n\t}\n\n\tgs.logger.Debug(\"JOIN topic\", \"topic\", topic)\n\tgs.tracer.Join(topic)\n", New: "\tgs.tracer.Join(topic)\n\tgmap, ok := gs.mesh[topic]\n\tif ok {\n\t\treturn\n\t}\n\n\tgs.logger.Debug(\"JOIN topic\", \"topic\", topic)\n", Expect: "R19.2"},
-			{Name: "handleprune-no-trace-when-absent", File: "gossipsub.go", Old: "\t\tgs.tracer.Prune(p, topic)\n\t\tdelete(peers, p)\n\t\t// is there a backoff specified by the peer? if so obey it.", New: "\t\tif len(peers) > 1 {\n\t\t\tgs.tracer.Prune(p, topic)\n\t\t}\n\t\tdelete(peers, p)\n\t\t// is there a backoff specified by the peer? if so obey it.", Expect: "R19.3"},
+			{Name: "handleprune-no-trace-when-absent", File: "gossipsub.go", Old: "\t\t\tgs.tracer.Prune(p, topic)\n\t\t\tdelete(peers, p)\n\t\t}\n\t\t// is there a backoff specified by the peer? if so obey it.", New: "\t\t\tif len(peers) > 1 {\n\t\t\t\tgs.tracer.Prune(p, topic)\n\t\t\t}\n\t\t\tdelete(peers, p)\n\t\t}\n\t\t// is there a backoff specified by the peer? if so obey it.", Expect: "R19.3"},
+			{Name: "handleprune-reports-nonmember", File: "gossipsub.go", Old: "\t\tif _, inMesh := peers[p]; inMesh {\n\t\t\tgs.logger.Debug(\"PRUNE: Remove mesh link to peer in topic\", \"peer\", p, \"topic\", topic)", New: "\t\tif _, inMesh := peers[p]; inMesh || len(peers) > 0 {\n\t\t\tgs.logger.Debug(\"PRUNE: Remove mesh link to peer in topic\", \"peer\", p, \"topic\", topic)", Expect: "R19.3"},
 			{Name: "handlegraft-trace-other-topic", File: "gossipsub.go", Old: "\t\tgs.tracer.Graft(p, topic)\n\t\tpeers[p] = struct{}{}\n\t}\n\n\tif len(prune) == 0 {", New: "\t\tgs.tracer.Graft(p, graft.GetTopicID()+\"\")\n\t\tpeers[p] = struct{}{}\n\t}\n\n\tif len(prune) == 0 {", Expect: "R19.3"},
 			{Name: "floodsub-drop-traced-as-send", File: "floodsub.go", Old: "\t\t\tfs.tracer.DropRPC(out, pid)\n", New: "\t\t\tfs.tracer.SendRPC(out, pid)\n", Expect: "R19.4"},
 			{Name: "announce-send-not-traced", File: "pubsub.go", Old: "\t\t\tgo p.announceRetry(pid, topic, sub)\n\t\t\tcontinue\n\t\t}\n\t\tp.tracer.SendRPC(out, pid)\n", New: "\t\t\tgo p.announceRetry(pid, topic, sub)\n\t\t\tcontinue\n\t\t}\n", Expect: "R19.4"},
@@ -139,6 +140,8 @@ func runC19(c *RuleCtx) {
 	if nEvt < 13 {
 		c.Undecided("R19.1", "pubsubTracer", "event constructors", nil, "fewer event-building methods than known (13)")
 	}
+	// R19.3 (converse) a PRUNE event stands for a mesh removal
+	checkPruneOnlyMembers(c, "R19.3")
 	// ---------- R19.2 sibling agreement over router implementations
 	var rtIface *types.Interface
 	if o := p.Main.Types.Scope().Lookup("PubSubRouter"); o != nil {
